@@ -105,7 +105,42 @@ def eval_doc(args):
             return dict(doc=doc, ver=ver, problem=dict(encode_names=sorted(names(enc))[:8], expected=sorted(names(root))[:8]))
     except Exception as e:
         return dict(doc=doc, ver=ver, problem=f'encode raised {type(e).__name__}: {str(e)[:120]}')
+    # the other conventions that keep namespace information: encoding their own data restores the expanded names as well
+    import xmlschema
+    # (documents that declare a default namespace below the root are the subject of the listed C05 / C17 findings: not judged here)
+    if ' xmlns="' not in doc.split('>', 1)[1]:
+        # BadgerFish / GData take a dictionary with one key equal to the element's own name as the element's wrapper: with this generator (every element is called n) an
+        # element whose only child is another n is ambiguous by construction, so the dictionary conventions are exercised by bounded/C05.py on other names instead
+        for cname, conv in (('JsonML', xmlschema.JsonMLConverter),):
+            try:
+                d2 = s.decode(doc, converter=conv, validation='lax')[0]
+                e2 = s.encode(d2, converter=conv, validation='lax'); e2 = e2[0] if isinstance(e2, tuple) else e2
+            except Exception as e:
+                return dict(doc=doc, ver=ver, problem=f'{cname}: decode / encode raised {type(e).__name__}: {str(e)[:120]}')
+            if e2 is None or sorted(names(e2)) != sorted(names(root)):
+                return dict(doc=doc, ver=ver, problem=dict(converter=cname, encode_names=sorted(names(e2))[:8] if e2 is not None else None, expected=sorted(names(root))[:8]))
     return False
+
+
+SAME_KEY_DOCS = ['<p:n xmlns:p="urn:u"><p:n/><p:n xmlns:p="urn:w"/></p:n>', '<p:n xmlns:p="urn:u"><p:n xmlns:p="urn:v"/><p:n xmlns:p="urn:w"/><p:n/></p:n>',
+                 '<p:n xmlns:p="urn:u"><p:n xmlns:p="urn:v"><p:n xmlns:p="urn:u"/><p:n/></p:n><p:n/></p:n>']
+
+
+def eval_same_key(args):
+    """children that share one key but bind its prefix differently: every convention that reports declarations restores each child's own expanded name"""
+    ver, doc, cname = args
+    import xmlschema
+    from xml.etree import ElementTree as ET
+    conv = {'default': None, 'BadgerFish': xmlschema.BadgerFishConverter, 'GData': xmlschema.GDataConverter, 'JsonML': xmlschema.JsonMLConverter}[cname]
+    s = _S.get(ver) or _S.setdefault(ver, schema(ver)); kw = dict(converter=conv) if conv else {}
+    def names(e): return [e.tag] + [n for c in e for n in names(c)]
+    try:
+        d = s.decode(doc, validation='lax', **kw)[0]
+        e = s.encode(d, validation='lax', **kw); errs = e[1] if isinstance(e, tuple) else []; e = e[0] if isinstance(e, tuple) else e
+    except Exception as x: return dict(ver=ver, doc=doc, converter=cname, problem=f'raised {type(x).__name__}: {str(x)[:100]}')
+    want = names(ET.fromstring(doc))
+    if e is None or names(e) != want: return dict(ver=ver, doc=doc, converter=cname, problem=dict(encoded=names(e) if e is not None else None, expected=want, errors=[x.reason for x in errs][:2]))
+    return None
 
 
 def run(tier, seed, open_findings):
@@ -125,10 +160,15 @@ def run(tier, seed, open_findings):
         if r and 'known' in r:
             if r['known'] in open_findings: known[r['known']] = known.get(r['known'], 0) + 1
             else: fails.append(dict(case=dict(doc=r['doc'], ver=r['ver']), observed='encode puts a no-namespace child into the default namespace of its parent', required='encode restores the names'))
-    return [result('C17.decoded_keys_resolve', f'{len(used)} generated documents (root in urn:u) with prefixes p/q/default redeclared over 3 URIs, depth <= 4, default converter, both classes',
+    sk = [eval_same_key((ver, d, c)) for ver in ('1.0', '1.1') for d in SAME_KEY_DOCS for c in ('default', 'BadgerFish', 'GData', 'JsonML')]
+    skf = [dict(case=dict(same_key=True, ver=r['ver'], doc=r['doc'], converter=r['converter']), observed=r['problem'], required='encode restores the expanded name of every child') for r in sk if r]
+    return [result('C17.same_key_children_own_declarations', f'{len(SAME_KEY_DOCS)} documents whose same-key children bind the prefix differently x 4 conventions x 2 classes', len(sk), skf, exhaustive=True, samples=[dict(doc=SAME_KEY_DOCS[0])]),
+            result('C17.decoded_keys_resolve', f'{len(used)} generated documents (root in urn:u) with prefixes p/q/default redeclared over 3 URIs, depth <= 4, default converter, both classes',
                    len(used), fails, known=known, samples=[dict(doc=docs[0][:200])], reported={'encode names differ below the third level (reported only)': rep}, distinct=len({d for _, d in jobs}))]
 
 
 def replay(check_name, case):
+    if case.get('same_key'):
+        r = eval_same_key((case['ver'], case['doc'], case['converter'])); return dict(ok=r is None, observed=r, required='encode restores the expanded names')
     r = eval_doc((case['ver'], case['doc']))
     return dict(ok=not (r and ('problem' in r or 'known' in r)), observed=r, required='keys resolve to the expanded names')
